@@ -253,7 +253,7 @@ pub fn run(ctx: &Ctx, model: &mut Model, rep: &mut Report) {
         idx.swap(i, r.below(i + 1));
     }
     // the known-finding classes are always exercised
-    let mut chosen: Vec<usize> = idx.iter().cloned().filter(|i| open.iter().any(|o| classes[*i].0.starts_with(o.as_str())) || classes[*i].0.starts_with("rename-free/non-ascii-dangling") || (classes[*i].0.contains("/headingless-") && classes[*i].0.matches('/').count() == 1) || classes[*i].0.starts_with("unknown-method") || classes[*i].0.starts_with("executeCommand/") || classes[*i].0 == "malformed-params").collect();
+    let mut chosen: Vec<usize> = idx.iter().cloned().filter(|i| open.iter().any(|o| classes[*i].0.starts_with(o.as_str())) || classes[*i].0.starts_with("rename-free/non-ascii-dangling") || ((classes[*i].0.contains("/headingless-") || classes[*i].0.contains("/unknown-file") || classes[*i].0.contains("/outside-library")) && classes[*i].0.matches('/').count() == 1) || classes[*i].0.starts_with("unknown-method") || classes[*i].0.starts_with("executeCommand/") || classes[*i].0 == "malformed-params").collect();
     for i in idx {
         if chosen.len() >= take.max(chosen.len()) {
             break;
